@@ -7,6 +7,7 @@ import (
 	"io"
 	"os"
 	"path/filepath"
+	"reflect"
 	"regexp"
 	"runtime"
 	"strings"
@@ -242,6 +243,15 @@ type Parsed struct {
 	Err Res
 }
 
+// scribble overwrites a byte slice the harness handed to the library: once a call
+// has returned, the caller may reuse its buffer, so nothing the library keeps (the
+// parsed template, an error it returned) may alias it.
+func scribble(b []byte) {
+	for i := range b {
+		b[i] = '#'
+	}
+}
+
 func Parse(e *liquid.Engine, src string) (p Parsed) {
 	r := guard(func() Res {
 		t, err := e.ParseString(src)
@@ -257,7 +267,25 @@ func Parse(e *liquid.Engine, src string) (p Parsed) {
 
 func ParseLoc(e *liquid.Engine, src, path string, line int) (p Parsed) {
 	r := guard(func() Res {
-		t, err := e.ParseTemplateLocation([]byte(src), path, line)
+		buf := []byte(src)
+		t, err := e.ParseTemplateLocation(buf, path, line)
+		scribble(buf)
+		if err != nil {
+			return errRes(err, "parse")
+		}
+		p.T = t
+		return Res{OK: true}
+	})
+	p.Err = r
+	return
+}
+
+// ParseBytes parses through Engine.ParseTemplate([]byte).
+func ParseBytes(e *liquid.Engine, src string) (p Parsed) {
+	r := guard(func() Res {
+		buf := []byte(src)
+		t, err := e.ParseTemplate(buf)
+		scribble(buf)
 		if err != nil {
 			return errRes(err, "parse")
 		}
@@ -428,9 +456,44 @@ func (w FaultStringWriter) WriteString(s string) (int, error) { return w.Write([
 // being quoted in another error's message does not carry the failure.
 func carries(err error) bool { return carriesErr(err, errInjected) }
 
+// Error values a writer may fail with: besides a plain errors.New value, an error of
+// an unhashable dynamic type (a slice of errors, as multi-error types are), a typed nil
+// pointer whose Error method panics (the classic nil-*T-returned-as-error mistake), and
+// an error that wraps another.
+type multiErr []error
+
+func (m multiErr) Error() string { return fmt.Sprintf("verif-multi-error(%d)", len(m)) }
+
+type ptrErr struct{ msg string }
+
+func (p *ptrErr) Error() string { return p.msg } // panics on a nil receiver
+
+var errKinds = []error{
+	nil, // the default errInjected
+	multiErr{errors.New("verif-inner-a"), errors.New("verif-inner-b")},
+	(*ptrErr)(nil),
+	&ptrErr{"verif-pointer-error"},
+	fmt.Errorf("verif-wrapping: %w", errors.New("verif-wrapped")),
+}
+
+func sameErr(a, b error) bool {
+	if a == nil || b == nil {
+		return a == nil && b == nil
+	}
+	ta, tb := reflect.TypeOf(a), reflect.TypeOf(b)
+	if ta != tb {
+		return false
+	}
+	if !ta.Comparable() {
+		va, vb := reflect.ValueOf(a), reflect.ValueOf(b)
+		return va.Kind() == reflect.Slice && va.Len() == vb.Len() && va.Pointer() == vb.Pointer()
+	}
+	return a == b
+}
+
 func carriesErr(err, want error) bool {
 	for i := 0; err != nil && i < 30; i++ {
-		if err == want || errors.Is(err, want) {
+		if sameErr(err, want) {
 			return true
 		}
 		if c, ok := err.(interface{ Cause() error }); ok && c.Cause() != nil && c.Cause() != err {
